@@ -80,7 +80,7 @@ PROPS["C11"] = dict(
         technique="Coq proof: closed-form characterisation of the normaliser for all strings; extracted model vs implementation differential check"),
     n=dict(quick=10000, thorough=100000),
     consts=[],
-    theorems=["C11_total", "C11_normal_form", "C11_reg_lookup", "C11_registered_path", "C11_classes", "C11_reach", "C11_shape", "C11_strict_distinguishes", "C11_lookup_by_normal_form", "C11_end_to_end"],
+    theorems=["C11_total", "C11_normal_form", "C11_reg_lookup", "C11_registered_path", "C11_classes", "C11_reach", "C11_shape", "C11_strict_distinguishes", "C11_lookup_by_normal_form", "C11_end_to_end", "C11_intercept_ignores_request_path"],
     rule="case = (StrictLastSlash, UseEncodedPath, 0..3 nested group prefixes, registered static path, request path as decoded and escaped "
          "string) over the alphabet {/ space tab . a b %2F %20 U+00A0}; request paths are mostly re-spellings / single edits of the registered "
          "path. Observed: Route.Path(), Router.Match hit, ServeHTTP status. Non-trivial = distinct case that hits through a different spelling, "
